@@ -216,6 +216,11 @@ FIXED += [
      c04("real(8)&\n  &pure function vf_f(vf_a)\nend function vf_f\n", "real(8) pure function vf_f(vf_a)\nend function vf_f\n")),
 ]
 
+FIXED += [
+    ("C04", "layout-rejected", "bf55898", "a line starting with ';' lost all its statements: the empty text in front of the ';' was turned into an item, creating it raised FortranReaderError inside the reader and the catch-all dropped the line silently",
+     c04(wrap("  ; vf_a = 1; k = 2\n  ;\n  ; ; m = 3"), wrap("  vf_a = 1\n  k = 2\n  m = 3"))),
+]
+
 OPEN = [
     ("C01", "format-c1002-node-not-reproduced", "a scale factor directly followed by a data edit descriptor ('1p e12.4') is held in a Format_Item_C1002 node but printed with a comma ('1P, E12.4'), so the re-parsed tree has two list items instead: the tree is not structurally identical after the round trip (the comma is asserted by test_format_specification_r1002.py)",
      {"mode": "source", "std": "f2003", "ic": True, "text": "subroutine s\n10 format (1p e12.4, i3)\nend subroutine s\n"}),
